@@ -2,14 +2,14 @@
 import json, os, subprocess, re
 import vlib, gen_config as G
 
-THEOREMS = [("Properties.C10", "C10_holds"), ("AsFound.C10", "C10_as_found_refuted")]
+THEOREMS = [("Properties.C10", "C10_holds"), ("AsFound.C10", "C10_as_found_refuted"), ("Harness.OracleProof", "spec_edges_iff")]
 CORRESPONDENCE = "Index::new adjacency list (verif::index_edges, target render) == Model.Index.adj_of"
 LEVEL_NOTE = ("Coq theorem C10_holds: for every well-formed configuration the model's adjacency list has an edge i->j exactly "
               "when target i depends on target j by whole path components, rows are duplicate-free, in range, and the dot rendering "
               "has one node line per target and one edge line per dependency. Tied to src/core/mod.rs by running Index::new "
               "(hook verif::index_edges and the CLI `target render`) and the extracted model on the same generated configurations.")
 TRUSTED = ["Coq 8.16.1 kernel (coqc); no axioms (Print Assumptions: closed under the global context)",
-           "extraction to OCaml via ExtrOcamlBasic only; ocaml/vmodel.ml driver",
+           "extraction to OCaml via ExtrOcamlBasic only; ocaml/vmodel.ml driver; the edge oracle spec_edges of Harness/Glue.v is proved to be the statement's graph clauses applied to the implementation's answer (Harness/OracleProof.v spec_edges_iff)",
            "trie-rs common_prefix_search modelled as 'stored non-empty keys that are byte prefixes of the query'",
            "hooks src/verif.rs (index_edges) and the Python/Rust harness; serde_json parsing of the configuration",
            "modelled, not verified: the Rust source itself (Index::new second pass, Dag::set, render_dotfile)"]
